@@ -8,8 +8,9 @@ Reading guide
 * `Canon l`        : `WInv` + merged (gap ≥ 1 between entries) + singletons stored as `one`
 * `add/discard/…`  : transcriptions of the Python methods (EPV/Model/UnicodeSubset.lean)
 -/
-import EPV.Lemmas.USetAdd
-import EPV.Lemmas.USetDiscard
+import EPV.Lemmas.USetOps
+import EPV.Lemmas.USetCompl
+import EPV.Lemmas.USetExt
 namespace EPV.C13
 open EPV.USet
 
@@ -59,5 +60,110 @@ theorem add_canon_fails_unit_range :
 /-- the hypotheses of the partial theorem are satisfiable on a non-trivial state -/
 example : Canon [.rng 1 3, .rng 7 9] ∧ CP.canon (.rng 2 5) ∧ addSafe (.rng 2 5) [.rng 1 3, .rng 7 9] = true ∧
     add (.rng 2 5) [.rng 1 3, .rng 7 9] = [.rng 1 5, .rng 7 9] := by decide
+
+
+/-- `__contains__` (with its early exits) decides membership on every sorted list. -/
+theorem contains_iff_mem (x : Nat) (l : List CP) (hw : WInv l) : contains x l = true ↔ memL x l :=
+  contains_iff x l hw
+
+/-- iteration yields exactly the members, in strictly increasing order (hence `len` = cardinality). -/
+theorem iter_sorted_members (l : List CP) (hw : WInv l) :
+    (iter l).Pairwise (· < ·) ∧ ∀ x, x ∈ iter l ↔ memL x l :=
+  ⟨iter_pairwise l hw, fun x => mem_iter x l⟩
+
+/-- argument well-formedness of one protocol operation (what `add`/`discard` accept, resp. the
+operand being a sorted `UnicodeSubset`) -/
+def OpOk : Op → Prop
+  | .add v | .discard v => v.lo < v.hi
+  | .ior o | .isub o | .iand o | .ixor o => WInv o
+
+/-- **one step refines the set-level operation** (`|=` union, `-=` difference, `&=` intersection,
+`^=` symmetric difference, add, discard) and keeps the representation invariant. -/
+theorem step_refines (l : List CP) (op : Op) (hw : WInv l) (hop : OpOk op) :
+    WInv (step l op) ∧ ∀ x, memL x (step l op) ↔ specStep (fun y => memL y l) op x := by
+  cases op with
+  | add v => exact ⟨add_winv v l hop hw, fun x => add_mem v l hop hw x⟩
+  | discard v => exact ⟨discard_winv v l hop hw, fun x => discard_mem v l hop hw x⟩
+  | ior o =>
+    obtain ⟨h1, h2⟩ := foldl_add o.reverse (allValid_reverse (winv_allValid hop)) l hw
+    refine ⟨h1, fun x => ?_⟩
+    simp only [step, ior, specStep, h2 x, memL_iff_exists x o, List.mem_reverse]
+  | isub o =>
+    obtain ⟨h1, h2⟩ := foldl_discard o.reverse (allValid_reverse (winv_allValid hop)) l hw
+    refine ⟨h1, fun x => ?_⟩
+    simp only [step, isub, specStep, h2 x, memL_iff_exists x o, List.mem_reverse]
+  | iand o =>
+    obtain ⟨h1, h2⟩ := foldl_discard o.reverse (allValid_reverse (winv_allValid hop)) l hw
+    have hv : AllValid ((iter (isub l o)).map CP.one) := by
+      intro v hv; obtain ⟨n, _, rfl⟩ := List.mem_map.mp hv; simp
+    obtain ⟨h3, h4⟩ := foldl_discard _ hv l hw
+    simp only [step, iand, foldl_discard_one]
+    refine ⟨h3, fun x => ?_⟩
+    rw [h4 x]
+    simp only [specStep]
+    have hi : ∀ n, n ∈ iter (isub l o) ↔ (memL n l ∧ ¬ memL n o) := by
+      intro n; rw [mem_iter]; simp only [isub, h2 n, memL_iff_exists n o, List.mem_reverse]
+    constructor
+    · rintro ⟨hl, hne⟩
+      refine ⟨hl, ?_⟩
+      apply Classical.byContradiction
+      intro hno
+      exact hne ⟨.one x, List.mem_map.mpr ⟨x, (hi x).mpr ⟨hl, hno⟩, rfl⟩, by simp [CP.mem]⟩
+    · rintro ⟨hl, ho⟩
+      refine ⟨hl, ?_⟩
+      rintro ⟨v, hv', hx⟩
+      obtain ⟨n, hn, rfl⟩ := List.mem_map.mp hv'
+      simp only [CP.mem, CP.lo_one, CP.hi_one] at hx
+      have : n = x := by omega
+      subst this
+      exact ((hi n).mp hn).2 ho
+  | ixor o =>
+    obtain ⟨h1, h2⟩ := foldl_xor (iter o) (iter_nodup o hop) l hw
+    refine ⟨h1, fun x => ?_⟩
+    simp only [step, ixor, specStep, h2 x, mem_iter]
+
+/-- **any sequence of operations refines the set algebra**: starting from any sorted list, after
+any list of well-formed operations the model list still satisfies the invariant and denotes
+exactly the set obtained by running the mathematical operations. -/
+theorem run_refines (ops : List Op) : ∀ (l : List CP), WInv l → (∀ op ∈ ops, OpOk op) →
+    WInv (run ops l) ∧ ∀ x, memL x (run ops l) ↔ (ops.foldl specStep (fun y => memL y l)) x := by
+  induction ops with
+  | nil => intro l hw _; exact ⟨hw, fun x => Iff.rfl⟩
+  | cons op ops ih =>
+    intro l hw hok
+    obtain ⟨h1, h2⟩ := step_refines l op hw (hok op (List.mem_cons_self ..))
+    obtain ⟨h3, h4⟩ := ih (step l op) h1 (fun o ho => hok o (List.mem_cons_of_mem _ ho))
+    refine ⟨h3, fun x => ?_⟩
+    simp only [run, List.foldl_cons] at h4 ⊢
+    rw [h4 x]
+    have : (fun y => memL y (step l op)) = specStep (fun y => memL y l) op := by
+      funext y; exact propext (h2 y)
+    rw [this]
+
+/-- `complement()` never raises on a sorted bounded list and yields exactly the non-members. -/
+theorem complement_mem (l : List CP) (hw : WInv l) (hb : ∀ c ∈ l, c.hi ≤ maxCP1) :
+    ∃ r, complement l = some r ∧ ∀ x, memL x r ↔ (x < maxCP1 ∧ ¬ memL x l) := by
+  obtain ⟨r, hr, hm⟩ := complementAux_spec l 0 hw
+    (by cases l <;> simp [headLoGe]) hb (by simp [maxCP1])
+  exact ⟨r, hr, fun x => by rw [hm x]; simp⟩
+
+/-- **equality is extensional on canonical lists** (`==` compares the lists). -/
+theorem canonical_eq_iff_same_set (a b : List CP) (ha : Canon a) (hb : Canon b) :
+    a = b ↔ ∀ x, memL x a ↔ memL x b :=
+  ⟨fun h x => by rw [h], canon_ext a b ha hb⟩
+
+/-- sequences made of `discard`, `-=` and `&=` keep the canonical form (only `add` can break it: F13) -/
+theorem removal_ops_canon (l : List CP) (hc : Canon l) :
+    (∀ v, v.lo < v.hi → Canon (discard v l)) ∧
+    (∀ o, WInv o → Canon (isub l o)) ∧ (∀ o, WInv o → Canon (iand l o)) := by
+  refine ⟨fun v hv => discard_canon v l hv hc, fun o ho => ?_, fun o ho => ?_⟩
+  · exact foldl_discard_canon _ (allValid_reverse (winv_allValid ho)) l hc
+  · simp only [iand, foldl_discard_one]
+    apply foldl_discard_canon _ _ l hc
+    intro v hv; obtain ⟨n, _, rfl⟩ := List.mem_map.mp hv; simp
+
+/-- non-vacuity of `run_refines`: a concrete non-trivial run (a test, not the theorem) -/
+example : run [.add (.rng 2 9), .discard (.one 4), .ixor [.rng 0 3]] [.rng 1 3, .rng 5 7]
+    = [.one 0, .one 3, .rng 5 9] := by decide
 
 end EPV.C13
